@@ -132,11 +132,8 @@ func runInefficient(b *roaring.Bitmap) []string {
 	for _, s := range v.Slots {
 		if s.Kind == roaring.VerifRun {
 			sizeRun := 2 + 4*s.NRuns
-			sizeArr := 2 * s.Card
-			if s.Card > 4096 {
-				sizeArr = 8192
-			}
-			if sizeRun > minI(sizeArr, 8192) && !(s.NRuns == 1) {
+			// the rule Validate applies: a run chunk must be strictly smaller than both alternatives
+			if sizeRun >= minI(2*s.Card, 8224) {
 				out = append(out, fmt.Sprintf("run-chunk-inefficient key=%d runs=%d card=%d", s.Key, s.NRuns, s.Card))
 			}
 		}
